@@ -5,7 +5,7 @@
 (* Output: NDJSON files named by the environment variables WIN_FILE and LOOP_FILE.         *)
 EXTENDS FitPeaksDefs, TLC, Json, IOUtils, SequencesExt
 
-Factors == {<<1, 3>>, <<1, 4>>, <<1, 2>>}
+Factors == {<<1, 3>>, <<1, 4>>, <<1, 2>>, <<3, 4>>}
 EstVals == {-36, -12, 0, 12, 36, 48, 84, 96, 108, 132}
 Widths == {2, 12, 24, 26, 50, 100, 400}
 MaxEst == 4
